@@ -190,7 +190,7 @@ func ruleP13(c *Ctx) {
 	allInstrs(fn, func(in ssa.Instruction) {
 		if call, ok := in.(*ssa.Call); ok {
 			if f := call.Call.StaticCallee(); f != nil {
-				if f.Name() == "stringLess" {
+				if fnName(f) == "stringLess" {
 					sl = call
 				}
 				if f == fn {
